@@ -29,7 +29,7 @@
 From Coq Require Import List ZArith NArith Bool Permutation.
 From Astisub Require Import Kit.Base Kit.Str Kit.Float64 Kit.Float64x Kit.Xml Model.Dur Model.Ttml
   Proofs.DurProofs Proofs.TtmlBase Proofs.TtmlSpec Proofs.TtmlTime Proofs.TtmlFloat Proofs.TtmlTimeAll
-  Proofs.TtmlLines Proofs.TtmlPara Proofs.TtmlRefs Proofs.TtmlDocSpec.
+  Proofs.TtmlLines Proofs.TtmlPara Proofs.TtmlRefs Proofs.TtmlDocSpec Proofs.TtmlDoc.
 Import ListNotations.
 Open Scope Z_scope.
 
@@ -119,6 +119,16 @@ Theorem C03_attr_order : forall al al', Permutation al al' -> NoDup (map attr_lo
   (forall l, attr_str l al' = attr_str l al /\ dur_attr l al' = dur_attr l al /\ int_attr l al' = int_attr l al).
 Proof. exact attr_order_irrelevant. Qed.
 Print Assumptions C03_attr_order.
+
+(* ---------------- write -> read ---------------- *)
+(* for every representable document value ([repr_doc], Example [ex_doc_repr]) and every indent option made
+   of blanks, tabs and line breaks, the tree the writer builds, with the indentation text nodes the XML
+   encoder adds for that option, is read back as the same styles (with parents), regions, title, copyright,
+   mapped language, and cues with ms-truncated times and the same lines, runs, references, attributes *)
+Theorem C03_write_read : forall d ind, repr_doc d = true -> indent_ok ind = true ->
+  exists t, write_ttml d = Ok t /\ read_ttml (indent_doc ind t) = Ok (written_value d).
+Proof. exact write_read. Qed.
+Print Assumptions C03_write_read.
 
 (* ---------------- totality ---------------- *)
 Theorem C03_read_total : forall root s, read_ttml root <> Panic s.
